@@ -13,7 +13,8 @@ namespace verif {
 struct RouteRec { int level; size_t pos, lo, chosen, level_size; };
 extern std::vector<RouteRec> route_log;
 extern bool route_on;
-extern int chunks;   // value answered by the interposed omp_get_num_procs / omp_get_max_threads
+extern int chunks;   // number of construction chunks: the minimum of what the interposed omp_get_num_procs / omp_get_max_threads answer
+extern int env;      // 0: both answer `chunks`; 1: more threads requested than processors; 2: more processors than threads
 }
 #define PGM_INDEX_VERIF_ROUTE(l, pos, lo, ch, sz) \
     do { if (verif::route_on) verif::route_log.push_back({int(l), size_t(pos), size_t(lo), size_t(ch), size_t(sz)}); } while (0)
@@ -86,7 +87,7 @@ struct Explorer {
     Explorer(Run &r, Counters &c, int prop, const char *name) : run(r), cn(c), prop(prop), cfg_name(name) {}
 
     std::string case_of(const std::string &data_desc, const std::string &q) const {
-        return std::string("cfg=") + cfg_name + " chunks=" + std::to_string(verif::chunks) + " " + data_desc + (q.empty() ? "" : " q=" + q);
+        return std::string("cfg=") + cfg_name + " chunks=" + std::to_string(verif::chunks) + (verif::env ? " env=" + std::to_string(verif::env) : "") + " " + data_desc + (q.empty() ? "" : " q=" + q);
     }
 
     // C07 route check for one query (PGMIndex with EpsilonRecursive > 0 only)
@@ -294,13 +295,15 @@ struct Explorer {
         if (!ks::generate_family<K>(spec, Eps, data, queries)) return;
         int saved = verif::chunks;
         verif::chunks = spec.chunks;
+        verif::env = spec.chunks > 1 ? int((spec.word + spec.seam + spec.rep + spec.n) % 3) : 0;
         check_array(data, queries, "family=" + spec.str(), true);
-        verif::chunks = saved;
+        verif::chunks = saved; verif::env = 0;
     }
 
     void replay(const std::map<std::string, std::string> &m) {
         std::vector<K> data, queries;
         if (m.count("chunks")) verif::chunks = atoi(m.at("chunks").c_str());
+        int env_replay = m.count("env") ? atoi(m.at("env").c_str()) : 0;
         std::string desc;
         if (m.count("family")) {
             auto spec = ks::FamilySpec::parse(m.at("family"));
@@ -311,7 +314,8 @@ struct Explorer {
         std::string q = m.count("q") ? m.at("q") : "";
         if (!q.empty() && q[0] != '(' && q[0] != '*') queries = {mc::parse_key<K>(q)};
         else if (!m.count("family")) { std::vector<K> pal(data.begin(), data.end()); pal.erase(std::unique(pal.begin(), pal.end()), pal.end()); queries = ks::query_alphabet<K>(pal); }
-        printf("replay: cfg=%s n=%zu chunks=%d queries=%zu\n", cfg_name, data.size(), verif::chunks, queries.size());
+        verif::env = env_replay;
+        printf("replay: cfg=%s n=%zu chunks=%d env=%d queries=%zu\n", cfg_name, data.size(), verif::chunks, verif::env, queries.size());
         check_array(data, queries, desc, data.size() > 64);
     }
 };
